@@ -22,6 +22,7 @@ import PygProofs.Lemmas.MonthNameLemmas
 import PygProofs.Lemmas.MonthNameStrLemmas
 import PygProofs.Lemmas.SlashesLemmas
 import PygProofs.Lemmas.DialectLemmas
+import PygProofs.Lemmas.IsoAnyLemmas
 
 namespace Pyg.Props.C04
 open Pyg Pyg.Bump Pyg.DateParse Pyg.Gen Pyg.Greg Pyg.NpDate
@@ -1137,5 +1138,111 @@ theorem ymd_drops_time (t : Int) (h0 : 0 ≤ t) (h1 : t < MAXUS) :
   rw [e]; have := split_t t; omega
 
 example : dropTime 63083133040000050 = 63083059200000000 := by decide +kernel   -- 2000-01-10T20:30:40.000050 -> 2000-01-10
+
+/-! ### round k3: ISO (year-first) text with ANY separator of the quantifier, padded or not; the `'yyyymmdd'` string (reviews t3 §3.2/3.3) -/
+
+/-- `dt('yyyy<s1>m<s2>d[ time]')` — the year first, month and day of one or two digits (padded or not), each separator any of
+`-`, `/`, `.`, blank (the two the same, or two different ones neither of which is the `.`: next to another separator a single `.` is a
+decimal point for dateutil — not covered), any time suffix — in both dialects: the instant.  `iso_text` is the instance `s1 = s2 = '-'`, two-digit fields. -/
+theorem iso_any_sep_text (uk : Bool) (y m d : Nat) (v : Valid y m d) (yy mm dd tm : List Char) (s1 s2 : Char) (hms us : Int)
+    (hyy : IsNumeral 4 yy) (hy4 : yy.length = 4) (hmm : IsNumeral 2 mm) (hdd : IsNumeral 2 dd)
+    (vy : digitsVal yy = y) (vm : digitsVal mm = m) (vd : digitsVal dd = d)
+    (h1 : isDateSep s1 = true) (h2 : isDateSep s2 = true) (hdot : s1 = s2 ∨ (s1 ≠ '.' ∧ s2 ≠ '.')) (ht : TimeText tm hms us) :
+    dtCs uk (yy ++ s1 :: (mm ++ s2 :: (dd ++ tm))) = some (checkRange (mkDate y m d + hms + us)) := by
+  unfold dtCs
+  rw [parse_iso_any_text yy mm dd tm s1 s2 hms us hyy hy4 hmm hdd h1 h2 hdot ht, vy, vm, vd]
+  simp only [Option.map_some]
+  rw [if_neg ht.nonneg, decide_plain uk y m d v hms us]
+
+/-- the same for `dt(<string>)` itself: the text passes `strip`, the `ambiguity` rewrite and `squeeze` unchanged (a text that starts
+with four digits is not a day-month triple) -/
+theorem iso_any_sep (uk : Bool) (y m d : Nat) (v : Valid y m d) (yy mm dd tm : List Char) (s1 s2 : Char) (hms us : Int)
+    (hyy : IsNumeral 4 yy) (hy4 : yy.length = 4) (hmm : IsNumeral 2 mm) (hdd : IsNumeral 2 dd)
+    (vy : digitsVal yy = y) (vm : digitsVal mm = m) (vd : digitsVal dd = d)
+    (h1 : isDateSep s1 = true) (h2 : isDateSep s2 = true) (hdot : s1 = s2 ∨ (s1 ≠ '.' ∧ s2 ≠ '.')) (ht : TimeText tm hms us) :
+    dtStr uk (String.ofList (yy ++ s1 :: (mm ++ s2 :: (dd ++ tm)))) = some (checkRange (mkDate y m d + hms + us)) := by
+  unfold dtStr
+  rw [String.toList_ofList, pre_iso_any yy mm dd tm s1 s2 hms us hyy hy4 hmm hdd h1 h2 ht]
+  exact iso_any_sep_text uk y m d v yy mm dd tm s1 s2 hms us hyy hy4 hmm hdd vy vm vd h1 h2 hdot ht
+
+/-- the date alone, zero-padded, one separator written twice: `2000/01/13`, `2000.01.13`, `2000 01 13`, `2000-01-13` all equal the date -/
+theorem iso_any_sep_date (uk : Bool) (y m d : Nat) (v : Valid y m d) (s : Char) (hs : isDateSep s = true) :
+    dtStr uk (String.ofList (pad4 y ++ s :: (pad2 m ++ s :: (pad2 d ++ [])))) = some (.ok (mkDate y m d)) := by
+  have hv := v; unfold Valid at hv
+  have hb := dim_bounds y m hv.2.2.1 hv.2.2.2.1
+  rw [iso_any_sep uk y m d v (pad4 y) (pad2 m) (pad2 d) [] s s 0 0 (isNumeral_pad4 y) rfl (isNumeral_pad2 m) (isNumeral_pad2 d)
+    (val_pad4 y (by omega)) (val_pad2 m (by omega)) (val_pad2 d (by omega)) hs hs (Or.inl rfl) TimeText.none]
+  simp only [Int.add_zero]; rw [checkRange_mkDate y m d v]
+
+/-- year-first texts are NEVER swapped: when (year, month, day) as written is not a calendar date — month 13, 30 February — the
+answer is ValueError in both dialects, whatever the separators (`dt('2000/13/01')` is not 13 January) -/
+theorem iso_any_sep_impossible (uk : Bool) (yy mm dd tm : List Char) (s1 s2 : Char) (hms us : Int)
+    (hyy : IsNumeral 4 yy) (hy4 : yy.length = 4) (hmm : IsNumeral 2 mm) (hdd : IsNumeral 2 dd)
+    (h1 : isDateSep s1 = true) (h2 : isDateSep s2 = true) (hdot : s1 = s2 ∨ (s1 ≠ '.' ∧ s2 ≠ '.')) (ht : TimeText tm hms us)
+    (hbad : ¬ Valid (digitsVal yy) (digitsVal mm) (digitsVal dd)) :
+    dtStr uk (String.ofList (yy ++ s1 :: (mm ++ s2 :: (dd ++ tm)))) = some (.error .value) := by
+  unfold dtStr
+  rw [String.toList_ofList, pre_iso_any yy mm dd tm s1 s2 hms us hyy hy4 hmm hdd h1 h2 ht]
+  unfold dtCs
+  rw [parse_iso_any_text yy mm dd tm s1 s2 hms us hyy hy4 hmm hdd h1 h2 hdot ht]
+  simp only [Option.map_some]
+  rw [if_neg ht.nonneg]
+  have : mkDateChecked (digitsVal yy : Nat) (digitsVal mm : Nat) (digitsVal dd : Nat) = .error .value := by
+    unfold mkDateChecked
+    rw [if_neg]
+    intro h
+    apply hbad
+    unfold Valid
+    simp only [Int.toNat_natCast] at h
+    omega
+  rw [this]; rfl
+
+/-- `ymd` of such a text is the date -/
+theorem ymd_of_iso_any_sep (uk : Bool) (y m d : Nat) (v : Valid y m d) (yy mm dd tm : List Char) (s1 s2 : Char) (hms us : Int)
+    (hyy : IsNumeral 4 yy) (hy4 : yy.length = 4) (hmm : IsNumeral 2 mm) (hdd : IsNumeral 2 dd)
+    (vy : digitsVal yy = y) (vm : digitsVal mm = m) (vd : digitsVal dd = d)
+    (h1 : isDateSep s1 = true) (h2 : isDateSep s2 = true) (hdot : s1 = s2 ∨ (s1 ≠ '.' ∧ s2 ≠ '.')) (ht : TimeText tm hms us) (h0 : 0 ≤ hms + us ∧ hms + us < DAYUS) :
+    ymdCs uk (yy ++ s1 :: (mm ++ s2 :: (dd ++ tm))) = some (.ok (mkDate y m d)) := by
+  have hm := mkDate_day_in_range y m d v
+  apply ymd_of_text uk _ y m d v (hms + us) h0
+  rw [iso_any_sep_text uk y m d v yy mm dd tm s1 s2 hms us hyy hy4 hmm hdd vy vm vd h1 h2 hdot ht]
+  congr 1; rw [checkRange_ok]; exact ⟨by omega, by omega⟩
+
+example : dtStr true "2000/1/13 10:30" = some (.ok (mkDate 2000 1 13 + 37800000000)) ∧ dtStr false "2000.01.13" = some (.ok (mkDate 2000 1 13))
+    ∧ dtStr true "2000 01 13" = some (.ok (mkDate 2000 1 13)) :=
+  ⟨eq_of_okView (by decide +kernel), eq_of_okView (by decide +kernel), eq_of_okView (by decide +kernel)⟩
+example : dtStr true "2000/13/01" = some (.error .value) ∧ dtStr false "2000.2.30" = some (.error .value) :=
+  ⟨eq_of_isValueError (by decide +kernel), eq_of_isValueError (by decide +kernel)⟩
+
+/-- **the `'yyyymmdd'` string** (the clause itself; until now only the midnight arm of `dt2str_roundtrip_str`): for every calendar date
+of the years 0001 … 9999 (`Valid`), in both dialects, `dt('yyyymmdd')` — four-digit year, two-digit month and day, no separator —
+is the date, and so is `ymd('yyyymmdd')` -/
+theorem compact_str (uk : Bool) (y m d : Nat) (v : Valid y m d) :
+    dtStr uk (String.ofList (pad4 y ++ pad2 m ++ pad2 d)) = some (.ok (mkDate y m d)) ∧
+    ymdCs uk (squeeze (slashes (strip (pad4 y ++ pad2 m ++ pad2 d)))) = some (.ok (mkDate y m d)) := by
+  have hv := v; unfold Valid at hv
+  have hb := dim_bounds y m hv.2.2.1 hv.2.2.2.1
+  have hcs : dtCs uk (pad4 y ++ pad2 m ++ pad2 d) = some (.ok (mkDate y m d)) := by
+    unfold dtCs
+    rw [parse_compact y m d (by omega) (by omega) (by omega)]
+    simp only [Option.map_some]
+    rw [if_neg (by omega), decide_plain uk y m d v 0 0]
+    simp only [Int.add_zero]; rw [checkRange_mkDate y m d v]
+  refine ⟨?_, ?_⟩
+  · unfold dtStr; rw [String.toList_ofList, pre_compact]; exact hcs
+  · rw [pre_compact]
+    have := ymd_of_text uk (pad4 y ++ pad2 m ++ pad2 d) y m d v 0 (by unfold DAYUS; omega) (by simpa using hcs)
+    exact this
+
+/-- … and it is the text `dt2str` writes for a date: `dt2str(datetime(y, m, d)) = 'yyyymmdd'` -/
+theorem dt2str_of_date (y m d : Nat) (v : Valid y m d) : dt2str (mkDate y m d) = String.ofList (pad4 y ++ pad2 m ++ pad2 d) := by
+  unfold dt2str dt2strCs
+  have hf := fields_of_date y m d v
+  have ht : todOf (mkDate y m d) = 0 := by unfold todOf mkDate ofOrd DAYUS; omega
+  simp only [hf, ht]
+  rfl
+
+example : dtStr true "20000113" = some (.ok (mkDate 2000 1 13)) ∧ dtStr false "22991231" = some (.ok (mkDate 2299 12 31)) :=
+  ⟨(compact_str true 2000 1 13 (by decide)).1, (compact_str false 2299 12 31 (by decide)).1⟩
 
 end Pyg.Props.C04
